@@ -17,7 +17,7 @@ RULE = ("directory trees (as C13) x 0..5 exclude patterns built from the tree's 
         "page iff neither it nor a directory between the input path and it matches, an excluded directory has no output "
         "content, an excluded input produces no output. Non-trivial: >=2 matching sibling entries in one directory, or a "
         "pattern set matching every CMake file of a directory; distinct by SHA-1 of the case")
-RULE_MORE = 'input path through a symlinked parent directory (patterns use the spelling given); another input documented first in the same invocation. Later: output = parent of the input; names with commas and regex metacharacters; Settings object reused through the API.'
+RULE_MORE = 'input path through a symlinked parent directory (patterns use the spelling given); another input documented first in the same invocation. Later: output = parent of the input; names with commas and regex metacharacters; Settings object reused through the API; (round 10) a followed symbolic link to a subdirectory that a pattern names.'
 ASSUMPTIONS = ["patterns are matched against absolute paths (as the help text of -e and the docs state); sandbox ancestors "
                "use names no generated pattern matches", "auto-exclusion off, recursive on unless drawn otherwise"]
 BUDGET = {"quick": {"shards": 8, "examples": 200}, "thorough": {"shards": 16, "examples": 2500}}
@@ -40,6 +40,7 @@ def strategy(tier):
         # the input path passes through a symbolic link (patterns use the spelling given on the command line), and/or
         # another input is documented first in the same invocation
         "via_link": st.sampled_from([False, False, True]),
+        "alias": st.sampled_from([0, 0, 0, 1, 2, 3, 4, 5]),
         "other_first": st.sampled_from([False, False, True]),
         # the output directory is the parent of the input directory
         "out_parent": st.sampled_from([False, False, False, True]),
@@ -151,6 +152,13 @@ def evaluate(case):
             res.labels.append("input-through-symlink")
         else:
             S.materialize(tree, inp)
+        if case.get("alias") and tree["dirs"]:
+            # a followed symbolic link to the first subdirectory; one pattern names the link
+            import copy as _cp
+            target = sorted(tree["dirs"])[0]
+            os.symlink(target, os.path.join(inp, "zz_alias"))
+            tree = {"files": tree["files"], "dirs": dict(tree["dirs"], zz_alias=_cp.deepcopy(tree["dirs"][target]))}
+            res.labels.append("followed-symlinked-directory-named-by-a-pattern")
         cwd = sb.path("cwd")
         if case.get("cwd") == "input":
             cwd = inp                 # bare-name patterns then also name entries of the working directory
@@ -161,6 +169,8 @@ def evaluate(case):
             # a directory-only pattern and a bare file name, both free of slashes
             pats = [(p, s) for p, s in pats if "/" not in p.rstrip("/")][:2] + [("gen.cmake/", case["samename"]),
                                                                                   ("dup.cmake", case["samename"])]
+        if case.get("alias") and "zz_alias" in tree["dirs"]:
+            pats = pats + [(["zz_alias/", "zz_alias", "zz_al*", inp + "/zz_alias", "**/zz_alias/"][case["alias"] % 5], "e")]
         plist = [p for p, _ in pats]
         all_paths = [(inp, True)] + [(inp + "/" + d, True) for d in S.tree_dirs(tree)] + \
                     [(inp + "/" + f, False) for f, _ in S.tree_files(tree)]
@@ -171,6 +181,8 @@ def evaluate(case):
         cfg = sb.path("settings.yaml")
         with open(cfg, "w") as f:
             f.write("input:\n  auto_exclude_directories_without_cmake: false\n")
+            if case.get("alias"):
+                f.write("  follow_symlinks: true\n")
             if by_src["s"]:
                 f.write("  exclude_filters:\n" + "".join(f"    - {p!r}\n" for p in by_src["s"]))
         cfgdir = sb.path("cfg")
